@@ -281,6 +281,8 @@ def r3_r4(prog, ev, rep):
 
     def neg_pair(body, notf, X, key):
         """body must be if(not ? invert(X) : X)"""
+        if body is not None and body.k == "if" and body.a[0].k == "un" and body.a[0].a[0] == "Not":
+            body = Tm("if", (body.a[0].a[1], body.a[2], body.a[1]), body.n)       # if(!c ? a : b) is if(c ? b : a)
         if body is None or body.k != "if" or body.a[0] != notf:
             rep.bad("C05-R3", key, where, "the `not` flag does not decide between X and !X: `%s`" % body)
             return
